@@ -239,6 +239,42 @@ def msgsOf : List (TEv α) → List (Ev α)
   | .msg e :: es => e :: msgsOf es
   | .quiet _ :: es => msgsOf es
 
+/-! ### the coordinator time-out with a clock: which messages re-arm it -/
+
+/-- a message, or one unit of time passing -/
+inductive CEv (α : Type) where
+  | msg (e : Ev α)
+  | tick
+deriving DecidableEq, Repr
+
+structure CSt (α : Type) where
+  w        : WSt α
+  elapsed  : Nat     -- time units since the time-out was (re-)armed
+  timedOut : Bool    -- waitForStart returned CoordinatorError{coordinator}
+deriving Repr
+
+/-- `waitForStart(…, c, limit)` with its ticker made explicit: the ticker fires when `limit` units have passed since it
+    was last re-armed, and it is re-armed ONLY by an initiate message of the coordinator `c` itself — a message that is
+    ignored because of its sender leaves it alone. (Once a process runs, the loop and its ticker are gone.) -/
+def stepClock (c : α) (limit : Nat) (s : CSt α) : CEv α → CSt α
+  | .tick =>
+    if s.timedOut then s else
+    match s.w.phase with
+    | .waiting => if limit ≤ s.elapsed + 1 then { s with timedOut := true } else { s with elapsed := s.elapsed + 1 }
+    | _ => s
+  | .msg e =>
+    if s.timedOut then s else
+    { s with w := stepWait (some c) s.w e,
+             elapsed := if e = Ev.init c ∧ s.w.phase = .waiting then 0 else s.elapsed }
+
+def runClock (c : α) (limit : Nat) (tr : List (CEv α)) : CSt α :=
+  tr.foldl (stepClock c limit) ⟨initW, 0, false⟩
+
+def ticksOf : List (CEv α) → Nat
+  | [] => 0
+  | .tick :: es => ticksOf es + 1
+  | .msg _ :: es => ticksOf es
+
 /-! ### the code as found (before the repair), kept to state the defect -/
 
 /-- the type switch of the as-found `handleError`: only the outermost value is looked at -/
